@@ -522,8 +522,42 @@ def gen_residue(env, tier, prop):
         env.run_xcube(prop, case)
 
 
+def gen_reuse(env, tier, prop):
+    """aggregate-function objects built directly (not through cube.count / cube.sum ...) and handed to calculate() on a
+    first cube and then on a second cube with a different number of rows: what the second cube returns is a function of
+    the second cube"""
+    from ..drivers import pool as pl
+    from . import c16
+    rnd, gen = env.rnd, env.gen
+    env.srcdir = core.REPO / "src"
+    for q in range(60 if tier == "quick" else 1000):
+        kind = "ccube"          # (the array cube's count object is given its row count when it is built)
+        n1 = rnd.choice([2, 4, 7, 12])
+        n2 = rnd.choice([m for m in (1, 3, 5, 7, 9) if m != n1])
+        cases = []
+        ignore, fmt = rnd.random() < 0.5, rnd.choice([("nan",), ("tuple", 0)])       # properties of the function object
+        for n in (n1, n2):
+            nd = rnd.choice([1, 2])
+            extents = [rnd.choice([2, 3]) for _ in range(nd)]
+            c = cb.Case(gen.dims(nd, n, extents), tuple(extents), None, None, ignore, fmt, "count")
+            cases.append(c)
+        w = rnd.choice([None, None, {"kind": "scalar", "w": rnd.choice([Fraction(1, 2), 2, 3])}])
+        for c in cases:
+            c.weights = w
+        runs = [pl.PoolRun(env, kind, c, ["count"], core.SEED + q) for c in cases]
+        f = runs[0].funcs()[0]
+        for r in runs:
+            r.cube.parallel = False
+            try:
+                out = r.cube.calculate([f])
+            except Exception:  # noqa
+                continue
+            c16.record_outputs(env, prop, r, out)
+
+
 def gen_c03_all(env, tier):
     gen_c03(env, tier)
+    gen_reuse(env, tier, "C03")
     gen_twin_dims(env, tier, "C03")
     gen_residue(env, tier, "C03")
     gen_wide(env, tier, "C03")
